@@ -465,11 +465,15 @@ func init() {
 			r.Require("logout_replies_form", 50)
 			r.Require("registration_targets_checked", 100)
 			r.Require("registration_sequence_early_failures", 50)
+			r.Require("tenant_sequence_requests", 100)
 			return []core.Workload{
 				{Name: "sso_targets", N: c.Pick(900, 9000), Fn: c02SSO},
 				{Name: "callback_targets", N: c.Pick(400, 4000), Fn: c02Callback},
 				{Name: "logout_targets", N: c.Pick(400, 4000), Fn: c02Logout},
 				{Name: "registration_changes", N: c.Pick(150, 1500), Fn: c02Registration},
+				{Name: "tenant_sequences", N: c.Pick(120, 1200), Fn: func(r *core.Run, idx int, rng *rand.Rand) {
+					tenantSequence(r, "tenant_sequences", idx, rng, true, false)
+				}},
 			}
 		},
 	})
